@@ -36,7 +36,7 @@ static_assert (sizeof (crypt_yescrypt_internal_t) <= ALG_SPECIFIC_SIZE,
 
 void
 crypt_yescrypt_rn (const char *phrase, size_t phr_size,
-                   const char *setting, size_t set_size,
+                   const char *setting, size_t ARG_UNUSED (set_size),
                    uint8_t *output, size_t o_size,
                    void *scratch, size_t s_size)
 {
@@ -62,8 +62,11 @@ crypt_yescrypt_rn (const char *phrase, size_t phr_size,
 
 #endif /* !INCLUDE_yescrypt */
 
-  if (o_size < set_size + 1 + 43 + 1 ||
-      CRYPT_OUTPUT_SIZE < set_size + 1 + 43 + 1 ||
+  /* Whether the result fits into o_size (and into outbuf) is checked
+     by yescrypt_r, which knows how much of the setting is replaced by
+     the new hash; comparing set_size + 45 here would reject a previous
+     result of this function used as the setting.  */
+  if (o_size > CRYPT_OUTPUT_SIZE ||
       s_size < sizeof (crypt_yescrypt_internal_t))
     {
       errno = ERANGE;
